@@ -1,8 +1,14 @@
 ---------------------------- MODULE GroupTrace ----------------------------
 (* Trace validation: a recorded execution of the real dispatch_group (hooked build,
    harness/drv_group.c) must be a behaviour of Group.tla.  Every record is bound to one spec
-   action with all logged fields compared (thread, projected old/new word, list pointers mapped
+   action with all logged fields compared (thread, GROUP, projected old/new word, list pointers mapped
    to notifier ids in order of appearance, memory order, futex arguments and results, API results).
+   Several groups live in one execution: every record of a word of a group carries `grp` and is matched
+   against the state of THAT group and against the group of the call its thread is in.
+   Token discipline of dispatch_group_async: ItemStart(t, tok, grp) / ItemEnd(t, tok) bracket the client
+   callout of item tok on thread t; the fetch-add (`Add`) the library performs for the item right after
+   ItemEnd must be on the group the item entered (Leave: g = cur[t].g) -- an Add on any other group's word
+   is explained by no action.  A thread cannot start another item before that leave happened.
    Silent steps (not hookable add-only or inside the kernel): the kernel's compare-and-sleep of
    FUTEX_WAIT, the elapsed-timeout return of _dispatch_wait_on_address without a syscall, and the
    spin reads of _dispatch_wait_for_enqueuer after a logged NULL load.
@@ -12,9 +18,11 @@
 EXTENDS Group, Json, IOUtils, TLCExt
 
 Tr == ndJsonDeserialize(IOEnv.TRACE)
-\* record 1 is a header written by the runner: {"e":"Header","nt":<threads>,"maxn":<notifiers per execution>}
+\* record 1 is a header written by the runner:
+\* {"e":"Header","nt":<threads>,"maxn":<notifiers per execution>,"ng":<groups per execution>}
 TraceThreads == 0..(Tr[1].nt - 1)
 TraceNIds == 1..Tr[1].maxn
+TraceGroups == 0..(Tr[1].ng - 1)
 NoProg == <<>>
 Unbounded == -1
 
@@ -32,6 +40,8 @@ MoChk(m) == IF Rec.mo = m THEN TRUE ELSE PrintT(<<"MO_DRIFT", m, Rec.mo>>)
 Ev(e) == l <= Len(Tr) /\ Rec.e = e
 Consume == l' = l + 1 /\ UNCHANGED <<ip, ended, f2n>>
 Same == UNCHANGED vars
+\* the record is an access of the call thread Rec.t is in: same group
+InGrp == Rec.grp \in Groups /\ G(Rec.t) = Rec.grp
 
 OldW == [gen |-> Rec.og, nv |-> Rec.ov, hn |-> Rec.on, hw |-> Rec.ow]
 NewW == [gen |-> Rec.ng, nv |-> Rec.nv, hn |-> Rec.nn, hw |-> Rec.nw]
@@ -44,65 +54,76 @@ TReset ==
     /\ Ev("Reset") /\ l' = l + 1
     /\ (l = 2 \/ ended)            \* an execution ends with its End record
     /\ ended' = FALSE /\ f2n' = f2n
-    /\ st' = S0 /\ ntail' = 0 /\ nhead' = 0 /\ nnext' = [n \in NIds |-> 0]
-    /\ futexQ' = {} /\ pc' = [t \in Threads |-> "idle"] /\ lv' = [t \in Threads |-> L0]
-    /\ ip' = ip /\ spur' = 0
-    /\ outstanding' = {} /\ own' = [t \in Threads |-> {}] /\ tasks' = {}
-    /\ pushed' = {} /\ regd' = {} /\ before' = [n \in NIds |-> {}] /\ zeroAfter' = [n \in NIds |-> FALSE]
+    /\ st' = [g \in Groups |-> S0] /\ ntail' = [g \in Groups |-> 0] /\ nhead' = [g \in Groups |-> 0]
+    /\ nnext' = [n \in NIds |-> 0]
+    /\ futexQ' = [g \in Groups |-> {}] /\ pc' = [t \in Threads |-> "idle"] /\ lv' = [t \in Threads |-> L0]
+    /\ ip' = ip /\ spur' = 0 /\ cur' = [t \in Threads |-> C0]
+    /\ outstanding' = [g \in Groups |-> {}] /\ own' = [g \in Groups |-> [t \in Threads |-> {}]]
+    /\ tasks' = [g \in Groups |-> {}]
+    /\ pushed' = [g \in Groups |-> {}] /\ regd' = {} /\ before' = [n \in NIds |-> {}]
+    /\ zeroAfter' = [n \in NIds |-> FALSE]
     /\ fired' = [n \in NIds |-> 0] /\ ran' = [n \in NIds |-> 0]
     /\ zeroSeen' = [t \in Threads |-> FALSE] /\ waitRes' = [t \in Threads |-> "none"]
     /\ earlyF2' = FALSE /\ earlyOther' = FALSE
 
 \* the driver reached the end of the execution: every call has returned, all explicit and
 \* asynchronous work has left, every notification block has run.  C07 at the end of a history:
-\* the count is zero, nothing is left behind, every notifier was submitted and ran exactly once.
+\* EVERY group's count is zero, nothing is left behind, every notifier was submitted and ran exactly once,
+\* no thread is still inside an item.
 TEnd ==
     /\ Ev("End") /\ l' = l + 1 /\ ~ended /\ ended' = TRUE
     /\ f2n' = IF earlyF2 THEN f2n + 1 ELSE f2n
     /\ UNCHANGED <<vars, ip>>
-EndOK == ended => /\ \A t \in Threads : pc[t] = "idle"
-                  /\ Count(st.nv) = 0 /\ outstanding = {} /\ tasks = {}
-                  /\ \A n \in pushed : fired[n] = 1 /\ ran[n] = 1
+EndOK == ended => /\ \A t \in Threads : pc[t] = "idle" /\ cur[t].tk = 0
+                  /\ \A g \in Groups : /\ Count(st[g].nv) = 0 /\ outstanding[g] = {} /\ tasks[g] = {}
+                                       /\ \A n \in pushed[g] : fired[n] = 1 /\ ran[n] = 1
 
 (* ---- API events ---- *)
-TCallNotify == Ev("CallNotify") /\ Consume /\ CallNotify(Rec.t)
-TCallWait   == Ev("CallWait") /\ Consume /\ CallWait(Rec.t, Rec.kind)
+TCallNotify == Ev("CallNotify") /\ Consume /\ Rec.grp \in Groups /\ CallNotify(Rec.t, Rec.grp)
+TCallWait   == Ev("CallWait") /\ Consume /\ Rec.grp \in Groups /\ CallWait(Rec.t, Rec.grp, Rec.kind)
 \* the API call returned: the spec thread must already be back to idle (with that result)
 TRet        == Ev("Ret") /\ Consume /\ pc[Rec.t] = "idle" /\ Same
 TRetWait    == /\ Ev("RetWait") /\ Consume /\ pc[Rec.t] = "idle"
                /\ waitRes[Rec.t] = (IF Rec.r = 0 THEN "ok" ELSE "timeout") /\ Same
 TNotifyRan  == Ev("NotifyRan") /\ Consume /\ NotifyRan(Rec.n)
+\* the client callout of a dispatch_group_async item
+TItemStart  == Ev("ItemStart") /\ Consume /\ Rec.grp \in Groups /\ ItemStart(Rec.t, Rec.grp, Rec.tok)
+TItemEnd    == Ev("ItemEnd") /\ Consume /\ ItemEnd(Rec.t, Rec.tok)
 
 (* ---- dg_state / dg_bits / dg_gen ---- *)
-TSub == /\ Ev("Sub") /\ Consume /\ Enter(Rec.t, Rec.tok, Rec.async = 1)
-        /\ Low(st) = LowOld /\ Low(st') = LowNew /\ MoChk("acquire")
-TAdd == /\ Ev("Add") /\ Consume /\ Leave(Rec.t, Rec.tok)
-        /\ st = OldW /\ MoChk("release")
+TSub == /\ Ev("Sub") /\ Consume /\ Rec.grp \in Groups /\ Enter(Rec.t, Rec.grp, Rec.tok, Rec.async = 1)
+        /\ ~cur[Rec.t].done
+        /\ Low(st[Rec.grp]) = LowOld /\ Low(st'[Rec.grp]) = LowNew /\ MoChk("acquire")
+\* tok: the work the thread is leaving (its own CallLeave, or the item whose callout just ended on it)
+TAdd == /\ Ev("Add") /\ Consume /\ Rec.grp \in Groups /\ Leave(Rec.t, Rec.grp, Rec.tok)
+        /\ st[Rec.grp] = OldW /\ MoChk("release")
         \* the fetch-add's result (the CAS of the clearing loop is a separate record)
-        /\ [gen |-> IF st.nv = VMOD - 1 THEN st.gen + 1 ELSE st.gen, nv |-> (st.nv + 1) % VMOD,
-            hn |-> st.hn, hw |-> st.hw] = NewW
-TLoadS == /\ Ev("LoadS") /\ Consume /\ st = OldW /\ MoChk("relaxed")
+        /\ LET s == st[Rec.grp] IN
+           [gen |-> IF s.nv = VMOD - 1 THEN s.gen + 1 ELSE s.gen, nv |-> (s.nv + 1) % VMOD,
+            hn |-> s.hn, hw |-> s.hw] = NewW
+TLoadS == /\ Ev("LoadS") /\ Consume /\ InGrp /\ st[Rec.grp] = OldW /\ MoChk("relaxed")
           /\ \/ NotifyLoad(Rec.t)
              \/ WaitLoad(Rec.t)
-TCas == /\ Ev("Cas") /\ Consume /\ st = OldW
+TCas == /\ Ev("Cas") /\ Consume /\ InGrp /\ st[Rec.grp] = OldW
         /\ IF Rec.ok = 1
-             THEN /\ st' = NewW
-                  /\ \/ LeaveCasOk(Rec.t) /\ MoChk("relaxed")
+             THEN /\ \/ LeaveCasOk(Rec.t) /\ MoChk("relaxed")
                      \/ NotifyCasOk(Rec.t) /\ MoChk("release")
                      \/ WaitCasOk(Rec.t) /\ MoChk("relaxed")
+                  /\ st'[Rec.grp] = NewW
              ELSE \/ LeaveCasFail(Rec.t) \/ NotifyCasFail(Rec.t) \/ WaitCasFail(Rec.t)
 \* the rmw loop gave up on the value just read (no access): the spec thread has already taken the
 \* corresponding branch (returned, went to the slow path, or started _dispatch_group_wake)
-TGiveUp == /\ Ev("GiveUp") /\ Consume /\ pc[Rec.t] \in {"idle", "w_fcall", "wk_head"} /\ Same
-TLoadG == /\ Ev("LoadG") /\ Consume /\ st.gen = Rec.g /\ MoChk("acquire") /\ WaitGenLoad(Rec.t)
+TGiveUp == /\ Ev("GiveUp") /\ Consume /\ pc[Rec.t] \in {"idle", "w_fcall", "wk_head"}
+           /\ (pc[Rec.t] = "idle" \/ InGrp) /\ Same
+TLoadG == /\ Ev("LoadG") /\ Consume /\ InGrp /\ st[Rec.grp].gen = Rec.g /\ MoChk("acquire") /\ WaitGenLoad(Rec.t)
 
 (* ---- the notify list ---- *)
-TXchgT == /\ Ev("XchgT") /\ Consume /\ ntail = Rec.old /\ MoChk("release")
+TXchgT == /\ Ev("XchgT") /\ Consume /\ InGrp /\ ntail[Rec.grp] = Rec.old /\ MoChk("release")
           /\ IF Rec.new # 0 THEN NotifyXchg(Rec.t, Rec.new) ELSE WakeTailXchg(Rec.t)
-TStoreH == /\ Ev("StoreH") /\ Consume
+TStoreH == /\ Ev("StoreH") /\ Consume /\ InGrp
            /\ IF Rec.v # 0 THEN NotifyLink(Rec.t) /\ lv[Rec.t].prev = 0 /\ lv[Rec.t].n = Rec.v
                            ELSE WakeHeadClear(Rec.t)
-TLoadH == /\ Ev("LoadH") /\ Consume /\ nhead = Rec.v
+TLoadH == /\ Ev("LoadH") /\ Consume /\ InGrp /\ nhead[Rec.grp] = Rec.v
           /\ IF Rec.v # 0 THEN WakeGetHead(Rec.t) ELSE WakeHeadNull(Rec.t)
 TStoreN == /\ Ev("StoreN") /\ Consume
            /\ IF Rec.v # 0
@@ -113,15 +134,15 @@ TLoadN == /\ Ev("LoadN") /\ Consume /\ Rec.c \in NIds /\ nnext[Rec.c] = Rec.v /\
           /\ IF Rec.v # 0 THEN WakeGetNext(Rec.t) ELSE WakeNextNull(Rec.t)
 
 (* ---- futex ---- *)
-TFutexWait == /\ Ev("FutexWait") /\ Consume /\ pc[Rec.t] = "w_fcall" /\ lv[Rec.t].g = Rec.val
+TFutexWait == /\ Ev("FutexWait") /\ Consume /\ pc[Rec.t] = "w_fcall" /\ InGrp /\ lv[Rec.t].g = Rec.val
               /\ (Rec.timed = 1) = (lv[Rec.t].kind = "timed") /\ Same
-TFutexRet == /\ Ev("FutexRet") /\ Consume
+TFutexRet == /\ Ev("FutexRet") /\ Consume /\ InGrp
              /\ CASE Rec.rc = 0   -> FutexWoken(Rec.t) \/ FutexSpurious(Rec.t)
                   [] Rec.rc = 4   -> FutexSpurious(Rec.t) \/ FutexWoken(Rec.t)     \* EINTR
                   [] Rec.rc = 11  -> FutexAgain(Rec.t)                              \* EWOULDBLOCK
                   [] Rec.rc = 110 -> FutexTimeout(Rec.t)                            \* ETIMEDOUT
                   [] OTHER -> FALSE
-TFutexWake == Ev("FutexWake") /\ Consume /\ WakeFutex(Rec.t)
+TFutexWake == Ev("FutexWake") /\ Consume /\ InGrp /\ WakeFutex(Rec.t)
 
 \* silent steps
 TSilent == /\ l <= Len(Tr) /\ UNCHANGED <<l, ip, ended, f2n>>
@@ -131,7 +152,7 @@ TSilent == /\ l <= Len(Tr) /\ UNCHANGED <<l, ip, ended, f2n>>
                 \/ (lv[t].nul /\ WakeGetHead(t))
                 \/ (lv[t].nul /\ WakeGetNext(t))
 
-TNext == TReset \/ TEnd \/ TCallNotify \/ TCallWait \/ TRet \/ TRetWait \/ TNotifyRan
+TNext == TReset \/ TEnd \/ TCallNotify \/ TCallWait \/ TRet \/ TRetWait \/ TNotifyRan \/ TItemStart \/ TItemEnd
          \/ TSub \/ TAdd \/ TLoadS \/ TCas \/ TGiveUp \/ TLoadG
          \/ TXchgT \/ TStoreH \/ TLoadH \/ TStoreN \/ TLoadN
          \/ TFutexWait \/ TFutexRet \/ TFutexWake \/ TSilent
